@@ -106,14 +106,22 @@ Print Assumptions C06_zero_first_accepted.
 (* ---- inference agrees with evaluation on quantities ------------------------------------------------
    "whenever it succeeds, replacing the symbols by non-zero quantities of their declared dimensions yields (function
    arguments being dimensionless) a quantity of that same dimension".  Inst e q: q is e with every dimensioned symbol
-   replaced by some quantity of its declared dimension (each occurrence its own value); scopeb: function arguments
-   dimensionless, literal rational exponents, no plain symbols / derivatives, and (the part that makes this theorem PARTIAL)
-   no sum that cancels to a literal 0 for the inference while a term is not literally 0; Fin q: all sub-values finite.
-   The full statement (scopeb_full, without the last clause) is `infer_then_collect_full_statement` in
-   Proofs/DiagramProofs.v; it is not proved. *)
-Theorem C06_infer_then_collect_partial : forall e q rv d,
+   replaced by some quantity of its declared dimension (each occurrence its own value); scopeb_full e: non-empty argument
+   lists, well-formed leaf dimensions, applied functions dimensionless with dimensionless arguments, literal rational
+   exponents, no plain symbols / derivatives (each clause has a counter-example in Proofs/DiagramProofs.v showing that the
+   conclusion fails without it); Fin q: every sub-value of the instantiated tree is finite.  The evaluation is never refused,
+   and its dimension is the inferred one unless its value is of any dimension; when the inference returns a number, that
+   number is the value of the constructed quantity. *)
+Theorem C06_infer_then_collect : forall e q rv d,
+  scopeb_full e = true -> Inst e q -> Fin q -> infer_e e = Ok (rv, d) ->
+  exists v d', collect q = Ok (v, d') /\ v = value q /\ finite_val v = true /\ wf_dim d /\ wf_dim d' /\
+               (is_any v = true \/ deq d' d) /\ (rv <> VSym -> val_eqb rv v = true).
+Proof. exact infer_then_collect_full_values. Qed.
+Print Assumptions C06_infer_then_collect.
+
+(* the same for the Quantity constructor *)
+Theorem C06_infer_then_quantity : forall e q rv d,
   scopeb e = true -> Inst e q -> Fin q -> infer_e e = Ok (rv, d) ->
-  exists v d', collect q = Ok (v, d') /\ v = value q /\ finite_val v = true /\
-               wf_dim d /\ wf_dim d' /\ (is_any v = true \/ deq d' d).
-Proof. exact infer_then_collect. Qed.
-Print Assumptions C06_infer_then_collect_partial.
+  exists v d', quantity_ctor q None = Ok (v, d') /\ (is_any v = true \/ equivalent_dims d' d = true).
+Proof. exact infer_then_quantity. Qed.
+Print Assumptions C06_infer_then_quantity.
